@@ -104,9 +104,10 @@ class PhaseField(_Simu):
         super().__init__(mesh, model, folder, verbosity)
 
         # Init internal variable
-        self.__psiP_e_pg: FeArray.FeArrayALike = np.empty(0, dtype=float)
+        # (one array per group of elements, as a mesh may hold several of them)
+        self.__psiP_e_pg: dict = {}
         # old positive elastic energy density psiPlus(e, pg, 1) to use the miehe history field
-        self.__old_psiP_e_pg: FeArray.FeArrayALike = np.empty(0, dtype=float)
+        self.__old_psiP_e_pg: dict = {}
 
         self.Need_Update()
 
@@ -176,8 +177,8 @@ class PhaseField(_Simu):
         _Simu.mesh.fset(self, mesh)  # type: ignore [attr-defined]
         if self.mesh is mesh:
             # the history field lives on the Gauss points of the mesh it was computed on
-            self.__psiP_e_pg = np.empty(0, dtype=float)
-            self.__old_psiP_e_pg = np.empty(0, dtype=float)
+            self.__psiP_e_pg = {}
+            self.__old_psiP_e_pg = {}
 
     @property
     def phaseFieldModel(self) -> Models.PhaseField:
@@ -535,11 +536,13 @@ class PhaseField(_Simu):
 
         if phaseFieldModel.solver == "History":
             # Get the old history field
-            old_psiPlus_e_pg = self.__old_psiP_e_pg.copy()  # type: ignore [union-attr]
+            old_psiPlus_e_pg = self.__old_psiP_e_pg.get(groupElem.elemType)
 
-            if isinstance(old_psiPlus_e_pg, list) and len(old_psiPlus_e_pg) == 0:
+            if old_psiPlus_e_pg is None:
                 # No damage available yet
                 old_psiPlus_e_pg = np.zeros_like(psiP_e_pg)
+            else:
+                old_psiPlus_e_pg = old_psiPlus_e_pg.copy()
 
             if old_psiPlus_e_pg.shape != psiP_e_pg.shape:
                 # the mesh has been changed, the value must be recalculated
@@ -556,9 +559,10 @@ class PhaseField(_Simu):
             # old = np.linalg.norm(self.__old_psiP_e_pg)
             # assert new >= old, "Error"
 
-        self.__psiP_e_pg = FeArray.asfearray(psiP_e_pg)
+        psiP_e_pg = FeArray.asfearray(psiP_e_pg)
+        self.__psiP_e_pg[groupElem.elemType] = psiP_e_pg
 
-        return self.__psiP_e_pg
+        return psiP_e_pg
 
     def __Construct_Damage_Matrix(self):
 
@@ -645,9 +649,12 @@ class PhaseField(_Simu):
 
         if self.phaseFieldModel.solver == self.phaseFieldModel.SolverType.History:
             # update old history field for next resolution
-            self.__old_psiP_e_pg = self.__psiP_e_pg
+            self.__old_psiP_e_pg = dict(self.__psiP_e_pg)
             # the history field is part of the state of the iteration
-            iter["psiP_history"] = np.array(self.__old_psiP_e_pg, copy=True)
+            iter["psiP_history"] = {
+                elemType: np.array(psiP_e_pg, copy=True)
+                for elemType, psiP_e_pg in self.__old_psiP_e_pg.items()
+            }
 
         iter["displacement"] = self.displacement
         iter["damage"] = self.damage
@@ -672,20 +679,24 @@ class PhaseField(_Simu):
 
         if "psiP_history" in results:
             # brings back the history field the iteration was saved with
-            self.__old_psiP_e_pg = FeArray.asfearray(
-                np.array(results["psiP_history"], copy=True)
-            )
+            self.__old_psiP_e_pg = {
+                elemType: FeArray.asfearray(np.array(psiP_e_pg, copy=True))
+                for elemType, psiP_e_pg in results["psiP_history"].items()
+            }
             # ... also as the trial one, which is what the next Save_Iter commits
-            self.__psiP_e_pg = self.__old_psiP_e_pg
+            self.__psiP_e_pg = dict(self.__old_psiP_e_pg)
 
         if (
             resetAll
             and self.phaseFieldModel.solver == self.phaseFieldModel.SolverType.History
         ):
             # It's really useful to do this otherwise when we calculate psiP there will be a problem
-            self.__old_psiP_e_pg = FeArray.zeros(*self.__old_psiP_e_pg.shape)
+            self.__old_psiP_e_pg = {}
             # update psi+ with the current state
-            self.__old_psiP_e_pg = self.__Calc_psiPlus_e_pg(self.mesh.groupElem)
+            self.__old_psiP_e_pg = {
+                groupElem.elemType: self.__Calc_psiPlus_e_pg(groupElem)
+                for groupElem in self.mesh.Get_list_groupElem()
+            }
 
         return results
 
